@@ -277,6 +277,29 @@ def run(ctx, rep):
         for k, v in ctl.items():
             rep.ob('positive-control', k, v >= 1, 'the %s scan does not fire on the positive-control crate' % k, reason='floor')
 
+    if ctx.tier == 'thorough' and ctx.config == 'default':
+        # D-global / D-effects over the dependency crates the library calls into (whole crates, not only the reachable part)
+        deps = ctx.dep_facts()
+        rep.floor('D-global-deps', 'dependency crates analysed', len(deps), 4)
+        dep_info = {}
+        for cname, df in sorted(deps.items()):
+            bad_statics = []
+            for it in df.items:
+                if it['kind'].startswith('Static'):
+                    mutable = 'mutability: Mut' in it['kind']
+                    celly = bool(GLOBAL_TY.search(it.get('ty', ''))) or 'Cell' in it.get('ty', '')
+                    if mutable or celly:
+                        bad_statics.append((it['def'], it.get('ty')))
+            tl = [g for g in scan_globals(df) if g[0] == 'thread-local access' or (g[0] == 'global-typed item')]
+            eff = scan_effects(df)
+            ub, uf, ui = scan_unsafe(df)
+            dep_info[cname] = {'bodies': len(df.bodies), 'immutable statics': len([i for i in df.items if i['kind'].startswith('Static')]),
+                               'unsafe blocks (trusted, listed)': sorted(set(u['owner'] for u in ub))[:12]}
+            rep.ob('D-global-deps', '%s:no-mutable-or-cell-statics' % cname, not bad_statics and not tl,
+                   'dependency %s has global mutable state: %s %s' % (cname, bad_statics[:3], tl[:3]), reason='inventory')
+            rep.ob('D-effects-deps', '%s:no-ambient-effects' % cname, not eff,
+                   'dependency %s calls ambient-effect functions: %s' % (cname, [(a, sym.short(c)) for a, c, _ in eff[:4]]), reason='inventory')
+        rep.info['dependency crates'] = dep_info
     if ctx.tier == 'thorough':
         fd = ctx.facts('debugfeat')
         effd = scan_effects(fd)
